@@ -124,15 +124,21 @@ func (s TSpec) String() string { return s.Triple().String() }
 // although they differ (node type/id boundary, literal byte encodings) - only
 // C01, the property that defines triple identity, asks for those.
 func genUniverse(r *Rand, n int, rich, collide bool) []TSpec {
+	return genUniverseZ(r, n, rich, collide, true)
+}
+
+// genUniverseZ: zones=false leaves out the values that are the same instant
+// written in another zone.
+func genUniverseZ(r *Rand, n int, rich, collide, zones bool) []TSpec {
 	ns := 2 + r.Intn(2)
 	subj := pickDistinct(r, V.NodesClean, ns)
 	preds := pickDistinct(r, V.PredsClean, 2+r.Intn(3))
 	objs := pickDistinct(r, V.ObjsClean, 3+r.Intn(4))
 	if rich {
-		if r.Bool() {
+		if zones && r.Bool() {
 			preds = append(preds, 3, 8) // one instant, two zones
 		}
-		if r.Bool() {
+		if zones && r.Bool() {
 			objs = append(objs, 28) // predicate-valued object in the other zone
 		}
 		switch r.Intn(4) {
